@@ -8,6 +8,7 @@ package main
 
 import (
 	"encoding/binary"
+	"encoding/json"
 	"fmt"
 	"math/rand"
 	"net"
@@ -21,7 +22,23 @@ import (
 
 func init() {
 	checks["C16"] = checkC16
-	replays["C16"] = opsReplay("drain", runDrainOps, func(r *Result, ops, impl []string) { drainOracle(r, ops, impl) })
+	c16ops := opsReplay("drain", runDrainOps, func(r *Result, ops, impl []string) { drainOracle(r, ops, impl) })
+	replays["C16"] = func(r *Result, raw json.RawMessage) {
+		var rp struct {
+			Ops []string `json:"ops"`
+		}
+		json.Unmarshal(raw, &rp)
+		switch {
+		case len(rp.Ops) > 0 && strings.HasPrefix(rp.Ops[0], "UpdatePolicyOptions(AllowedIPs="):
+			policyValueFrozenAtUpdate(r)
+		case len(rp.Ops) > 0 && rp.Ops[0] == "limiter-follows-update":
+			limiterFollowsUpdate(r)
+		case len(rp.Ops) > 0 && rp.Ops[0] == "mid-drain-every-procedure":
+			midDrainEveryProcedure(r)
+		default:
+			c16ops(r, raw)
+		}
+	}
 }
 
 type drainEnv struct {
